@@ -93,7 +93,8 @@ theorem invP_reach {c : Conf} (h : Reach C O st0 script picks c) : InvP C script
 
 theorem invQ_reach {c : Conf} (h : Reach C O st0 script picks c) : InvQ c := by
   refine reach_ind (P := InvQ) ?_ (fun c _ hc => invQ_step C O c hc) c h
-  refine ⟨?_, fun _ _ => rfl, ?_⟩
+  refine ⟨?_, ?_, fun _ _ => ⟨rfl, rfl⟩, ?_⟩
+  · intro e he; cases he
   · intro e he; cases he
   · intro _ _ h; cases h
 
